@@ -1181,3 +1181,5 @@ def run(ctx, F):
     ctx.run_rule("C05-R10", "pow2 (all 64 exponents), is_odd and the quadratic-extension instructions: composed results equal the definitions in F_p[x]/(x^2 - x + 2) and the documented formulas; ext2inv/ext2div return the verified inverse in the documented coefficient order", r10_field_semantics, C)
     ctx.run_rule("C05-R11", "an instruction whose reference row documents no failing case has no feasible failing path in its composed lowering", r11_no_undocumented_failure, C)
     ctx.run_rule("C05-R6", "minimum stack depth: shift_left pops/decrements only when depth > 16; depth writers confined", r6_min_depth, F)
+    from . import rules_c09
+    ctx.run_rule("C05-R12", "with the default host the hint-assisted instructions fail only in their documented cases: the advice injectors behind u32clz/ctz/clo/cto, ilog2, ext2inv / ext2div and the u64 division push the defined values for every valid operand and refuse only the documented ones (= C09-R6)", rules_c09.r6_honest_injectors, F)
